@@ -110,6 +110,35 @@ func scenarios() []*sched.Scenario {
 		vrt.Observe("final", fmt.Sprint(sorted(s1.ToSlice())), fmt.Sprint(sorted(s2.ToSlice())), fmt.Sprint(sorted(d.ToSlice())))
 		expectSet("DerivedSet after unsubscribing source 1", d.ToSlice(), s2.ToSlice())
 	})
+	add("derivedset/inheritfrom-vs-writes", false, func() {
+		s1 := reactive.NewSet[int]()
+		s1.Add(1)
+		s1.Add(2)
+		d := reactive.NewDerivedSet[int]()
+		sub := reactive.NewSet[int]()
+		vrt.Par(
+			func() { d.InheritFrom(s1) },
+			func() { s1.Delete(1); s1.Add(3) },
+			func() { _ = sub }, // keeps three parties in the schedule tree without adding work
+		)
+		r := s1.SubtractReactive(sub)
+		vrt.Quiesce()
+		vrt.Observe("final", fmt.Sprint(sorted(s1.ToSlice())), fmt.Sprint(sorted(d.ToSlice())))
+		expectSet("DerivedSet subscribed while its source was written", d.ToSlice(), s1.ToSlice())
+		expectSet("SubtractReactive", r.ToSlice(), s1.ToSlice())
+	})
+	add("set/subtractreactive-subscribes-during-writes", false, func() {
+		s1, s2 := reactive.NewSet[int](), reactive.NewSet[int]()
+		s1.Add(1)
+		s1.Add(2)
+		var r reactive.ReadableSet[int]
+		vrt.Par(
+			func() { r = s1.SubtractReactive(s2) },
+			func() { s1.Delete(1); s1.Add(3) },
+		)
+		vrt.Quiesce()
+		expectSet("SubtractReactive created while its source was written", r.ToSlice(), s1.ToSlice())
+	})
 	add("set/subtractreactive", false, func() {
 		s1, s2 := reactive.NewSet[int](), reactive.NewSet[int]()
 		s1.Add(1)
